@@ -34,7 +34,7 @@ func ToIncrementalProof
   ensures !isnil(result.Hasher)
 
 func ToMembershipResult
-  props C13
+  props C11 C13
   requires mp != nil && mp.HyperProof != nil
   modifies everything
   ensures result != nil && fresh(result)
@@ -50,9 +50,18 @@ func ToIncrementalResponse
 
 // ASSUMED (C17): encoding a batch does not fail. (If it did, Sender.batcher would drop the
 // snapshot it has just received and keep the full batch: the `continue` in its full-batch branch.)
-func BatchSnapshots.Encode
-  assumes isnil(result_1)
 // (decoding fills the receiver from the message; what it reads is json's, not modelled)
 func BatchSnapshots.Decode
   modifies *b
+// C17: the wire form of a batch BELONGS TO THE CALLER. The sender publishes it as the payload of a
+// gossip message that other goroutines read later: bytes that the encoder keeps (a pooled or
+// reused buffer) change under an already published message when the next batch is encoded -
+// snapshots of the earlier batch are lost, those of the later one go out twice.
+func BatchSnapshots.Encode
+  props C17
+  requires b != nil
+  modifies marshalCalls, lastMarshalled
+  ensures C17/the-payload-is-the-callers-own: isnil(result_1) ==> fresh(result_0)
+  // ASSUMED (see above): encoding a batch does not fail
+  assumes isnil(result_1)
 @*/
